@@ -16,15 +16,17 @@ N == Len(Rec)
 VARIABLES l, prev, viol
 vars == <<l, prev, viol>>
 
-Empty == [reg |-> <<>>, procs |-> {}]
+Empty == [reg |-> <<>>, procs |-> {}, inst |-> {}]
 Norm(e) == [reg   |-> [i \in DOMAIN e.reg |-> [st |-> e.reg[i].st, pid |-> e.reg[i].pid, name |-> e.reg[i].name,
-                                               dir |-> e.reg[i].dir, ports |-> ToSet(e.reg[i].ports)]],
-            procs |-> ToSet(e.os.procs)]
-Event(e) == [op |-> e.op, svc |-> e.svc, res |-> e.res, req |-> ToSet(e.req), reload_eq |-> e.reload_eq]
+                                               dir |-> e.reg[i].dir, ports |-> ToSet(e.reg[i].ports), um |-> e.reg[i].um]],
+            procs |-> ToSet(e.os.procs),
+            inst  |-> ToSet(e.os.insts)]
+Event(e) == [op |-> e.op, svc |-> e.svc, res |-> e.res, req |-> ToSet(e.req), reload_eq |-> e.reload_eq,
+             refreshed |-> e.refreshed]
 
 Known(e) == \/ e.ev = "Reset"
             \/ /\ e.ev = "Op"
-               /\ e.op \in {"Add", "Start", "Stop", "Remove", "Upgrade"}
+               /\ e.op \in {"Add", "Start", "Stop", "Remove", "Upgrade"} \cup EnvOps
                /\ e.res \in {"Ok", "Err", "Panic"}
                /\ \A i \in DOMAIN e.reg : e.reg[i].st \in Statuses
 
